@@ -552,3 +552,101 @@ Proof.
   - exact Hv.
   - split; [exact H1|]. intros pos Hpos. apply H2. cbv beta. rewrite H1. rewrite Hpos. symmetry. apply map_length.
 Qed.
+
+(* =====================  end-to-end corollaries: linear execution = the einsum  ===================== *)
+Lemma full_tree_NoDup n t : full_tree n t -> NoDup (leaves t).
+Proof. intros H. apply (full_tree_inrange n t H). Qed.
+
+Theorem exec_order_is_einsum n sl arr e0 l r order :
+  wf_net n -> full_tree n (Node l r) -> valid_order (Node l r) order ->
+  forall e, agree_removed sl e0 e ->
+  snd (exec_program n sl arr e0 (program n sl true (Node l r) order) (Node l r)) (map e (out_inds n sl))
+  = einsum_spec n sl arr e.
+Proof.
+  intros Hwf Hfull Hv e He.
+  destruct (exec_order_einsum n sl arr e0 l r order (full_tree_NoDup n _ Hfull) Hv) as [_ H].
+  rewrite H. apply run_root_correct; assumption.
+Qed.
+
+Theorem exec_order_any_pref_is_einsum n sl arr e0 pe l r order :
+  wf_net n -> full_tree n (Node l r) -> valid_order (Node l r) order ->
+  tdot_step_ok_at n sl e0 (Node l r) ->
+  forall e, agree_removed sl e0 e ->
+  snd (exec_program n sl arr e0 (program n sl pe (Node l r) order) (Node l r)) (map e (out_inds n sl))
+  = einsum_spec n sl arr e.
+Proof.
+  intros Hwf Hfull Hv Hstep e He.
+  destruct (exec_order_any_pref n sl arr e0 pe l r order (full_tree_NoDup n _ Hfull) Hv Hstep) as [_ H].
+  rewrite H by (unfold out_inds; apply map_length). apply run_root_correct; assumption.
+Qed.
+
+(* =====================  a verified boolean checker for valid orders  ===================== *)
+Fixpoint tree_eqb (a b : tree) : bool :=
+  match a, b with
+  | Leaf i, Leaf j => Nat.eqb i j
+  | Node a1 a2, Node b1 b2 => tree_eqb a1 b1 && tree_eqb a2 b2
+  | _, _ => false
+  end.
+Lemma tree_eqb_iff a : forall b, tree_eqb a b = true <-> a = b.
+Proof.
+  induction a as [i|a1 IH1 a2 IH2]; intros [j|b1 b2]; cbn [tree_eqb].
+  - rewrite Nat.eqb_eq. split; [intros ->; reflexivity|intros E; injection E as ->; reflexivity].
+  - split; intros H; discriminate H.
+  - split; intros H; discriminate H.
+  - rewrite andb_true_iff, IH1, IH2. split; [intros [-> ->]; reflexivity|].
+    intros E. injection E as -> ->. split; reflexivity.
+Qed.
+Definition tmemb (q : tree) (l : list tree) : bool := existsb (tree_eqb q) l.
+Lemma tmemb_In q l : tmemb q l = true -> In q l.
+Proof.
+  unfold tmemb. rewrite existsb_exists. intros [x [Hx E]]. apply tree_eqb_iff in E. subst x. exact Hx.
+Qed.
+Fixpoint tnodup_b (l : list tree) : bool :=
+  match l with [] => true | x :: l' => negb (tmemb x l') && tnodup_b l' end.
+Lemma tnodup_b_sound l : tnodup_b l = true -> NoDup l.
+Proof.
+  induction l as [|x l IH]; cbn [tnodup_b]; [constructor|].
+  rewrite andb_true_iff, negb_true_iff. intros [H1 H2]. constructor; [|apply IH, H2].
+  intros Hin. assert (E : tmemb x l = true); [|congruence].
+  unfold tmemb. apply existsb_exists. exists x. split; [exact Hin|apply tree_eqb_iff; reflexivity].
+Qed.
+Definition child_ok_b (seen : list tree) (q : tree) : bool :=
+  match q with Leaf _ => true | Node _ _ => tmemb q seen end.
+Fixpoint cfirst_b (seen : list tree) (o : list tree) : bool :=
+  match o with
+  | [] => true
+  | p :: o' =>
+      match p with Leaf _ => true | Node l r => child_ok_b seen l && child_ok_b seen r end
+      && cfirst_b (p :: seen) o'
+  end.
+Lemma child_ok_b_sound seen q : child_ok_b seen q = true -> is_leaf q \/ In q seen.
+Proof. destruct q as [k|a b]; cbn [child_ok_b]; [left; exact I|]. intros H. right. apply tmemb_In, H. Qed.
+Lemma cfirst_b_sound o : forall seen, cfirst_b seen o = true -> cfirst seen o.
+Proof.
+  induction o as [|p o IH]; intros seen; cbn [cfirst_b cfirst]; [trivial|].
+  rewrite andb_true_iff. intros [H1 H2]. split; [|apply IH, H2].
+  destruct p as [k|l r]; cbn [child]; [intros q []|].
+  apply andb_true_iff in H1. destruct H1 as [Hl Hr].
+  intros q [-> | ->]; apply child_ok_b_sound; assumption.
+Qed.
+Definition valid_order_b (t : tree) (order : list (bool * tree)) : bool :=
+  Nat.eqb (length order) (length (post_sub t))
+  && forallb (fun q => tmemb q (post_sub t)) (map snd order)
+  && tnodup_b (map snd order)
+  && forallb (fun bq => Bool.eqb (fst bq) (tree_eqb (snd bq) t)) order
+  && cfirst_b [] (map snd order).
+
+Theorem valid_order_b_sound t order : valid_order_b t order = true -> valid_order t order.
+Proof.
+  unfold valid_order_b. rewrite !andb_true_iff. intros [[[[H1 H2] H3] H4] H5].
+  apply Nat.eqb_eq in H1. split; [|split].
+  - apply NoDup_Permutation_bis.
+    + apply tnodup_b_sound, H3.
+    + rewrite map_length. rewrite H1. apply le_n.
+    + intros x Hx. rewrite forallb_forall in H2. apply tmemb_In, H2, Hx.
+  - intros b q Hin. rewrite forallb_forall in H4. specialize (H4 _ Hin). cbn [fst snd] in H4.
+    apply Bool.eqb_prop in H4. rewrite H4. apply tree_eqb_iff.
+  - intros pre b p suf E q Hq.
+    assert (E' : map snd order = map snd pre ++ p :: map snd suf) by (rewrite E, map_app; reflexivity).
+    destruct (cfirst_split _ [] (cfirst_b_sound _ [] H5) _ _ _ E' q Hq) as [H|[[]|H]]; auto.
+Qed.
